@@ -262,6 +262,8 @@ class C16(Prop):
                     for f_ in FANS for s_ in ("ON", "OFF")]
             if len(irset["IRWaveList"]) > 280 and x_len < 0.4:
                 n_calls = 640      # a remote rich enough to have hundreds of different codes asked of it
+            if not walk and n_calls == 640:
+                n_calls = 130      # (a set without a single plain mode key: nothing to walk over)
             early = []         # (reported, request) of the first calls of a very long history: asked again at its end
             if n_calls == 640:
                 acc.count("very_long_histories_on_one_remote_object")
